@@ -13,8 +13,10 @@ The reference model (pure Python, math.fsum) is in this file too: payoff rows, c
 """
 from __future__ import annotations
 
+import itertools
 import logging
 import math
+import weakref
 
 import numpy as np
 
@@ -38,9 +40,11 @@ BARRIER_KINDS = ("b-ui", "b-uo", "b-di", "b-do")
 STRIKES = {"s": 0.75, "v2": [0.75, 1.25], "v3": [0.25, 0.75, 1.25],
            # payoffs on an underlying type other than Spot (sub "mixed"): call on the log-spot / on the mean of the spots
            "ls": -0.25, "lv2": [-0.25, 0.25], "m": 0.75, "mv2": [0.75, 1.25],
+           # integer-valued strikes (sub "forms": the same strikes given as Python ints / integer arrays)
+           "si": 1.0, "vi2": [0.0, 1.0],
            "b-ui": BARRIER_STRIKE, "b-uo": BARRIER_STRIKE, "b-di": BARRIER_STRIKE, "b-do": BARRIER_STRIKE}
 PAYOFF_UNDERLYING = {"s": "spot", "v2": "spot", "v3": "spot", "ls": "logspot", "lv2": "logspot", "m": "mean", "mv2": "mean",
-                     "b-ui": "spot", "b-uo": "spot", "b-di": "spot", "b-do": "spot"}
+                     "si": "spot", "vi2": "spot", "b-ui": "spot", "b-uo": "spot", "b-di": "spot", "b-do": "spot"}
 LFWD_K = -0.5  # strike of the forward on the log-spot
 LCALL_K = -0.25  # strike of the call on the log-spot
 
@@ -94,6 +98,36 @@ class ScriptedModelWithoutDensity:
         return 1
 
 
+_UID = itertools.count(1)
+_COUNTERS = weakref.WeakValueDictionary()  # uid -> CallCounter (pickled copies of a scripted process find theirs here)
+
+
+def _counter_by_uid(uid):
+    c = _COUNTERS.get(uid)
+    return c if c is not None else CallCounter(uid)
+
+
+class CallCounter:
+    """Number of simulate_one_path calls and call log of ONE scripted process. A pickle / dill round trip of the process (what
+    a worker pool does with the engine's task, once per chunk) keeps the counter of the original - all the copies made for
+    one pricing hand out the script's paths one after the other, each once, and the parent sees the total number of calls -
+    whereas copy.deepcopy gives an independent counter (a deep copy of an engine is another engine)."""
+
+    def __init__(self, uid=None):
+        self.uid = next(_UID) if uid is None else uid
+        self.calls = 0
+        self.log = []
+        _COUNTERS[self.uid] = self
+
+    def __reduce__(self):
+        return _counter_by_uid, (self.uid,)
+
+    def __deepcopy__(self, memo):
+        c = CallCounter()
+        c.calls, c.log = self.calls, list(self.log)
+        return c
+
+
 class ScriptedProcess:
     """Duck-typed Process. `letters` are the terminal spot values of the successive paths."""
 
@@ -107,8 +141,19 @@ class ScriptedProcess:
             ProcessRepresentation.IDENDITY if representation == "identity" else ProcessRepresentation.LOG
         )
         self.model = ScriptedModel() if with_density else ScriptedModelWithoutDensity()
-        self.calls = 0
-        self.log = []
+        self._state = CallCounter()
+
+    @property
+    def calls(self):
+        return self._state.calls
+
+    @calls.setter
+    def calls(self, v):
+        self._state.calls = v
+
+    @property
+    def log(self):
+        return self._state.log
 
     def dimension(self):
         return 1
@@ -117,8 +162,8 @@ class ScriptedProcess:
         """Re-use of ONE process object for another pricing (sub 'history'): a new script of paths (and possibly another
         discount factor); the call counter and the log start again."""
         self.letters = list(letters)
-        self.calls = 0
-        self.log = []
+        self._state.calls = 0
+        self._state.log = []
         if df is not None:
             self._df = df
 
@@ -187,12 +232,48 @@ def underlying_value(name, s):
     return math.log(s) if name == "logspot" else s
 
 
-def make_product(kind, notional):
+# Legal forms of the arguments (sub "forms"): the same values handed over in another Python / numpy form. Every form listed
+# here is accepted by the tree this module was built against and answered exactly like the usual form (float / list of
+# floats / list of arrays / Python int); the forms that tree rejects (strikes of shape (1, n) or 0-d, mc_paths as a float,
+# 0-d prices) are outside the alphabet.
+STRIKE_FORMS = ("strike-tuple", "strike-array", "strike-npfloat", "strike-int", "strike-intarray", "strike-list1")
+NOTIONAL_FORMS = ("notional-int", "notional-npfloat")
+PRICES_FORMS = ("prices-tuple", "prices-lists", "prices-2d", "prices-array", "prices-npfloat", "products-tuple")
+CALL_FORMS = ("paths-npint", "procs-npint", "price-keyword")
+
+
+def _strike_form(k, forms):
+    scalar = isinstance(k, float)
+    if "strike-list1" in forms and scalar:
+        return [k]
+    if "strike-int" in forms:
+        return int(k) if scalar else [int(x) for x in k]
+    if "strike-intarray" in forms:
+        return np.int64(int(k)) if scalar else np.array([int(x) for x in k])
+    if "strike-npfloat" in forms:
+        return np.float64(k) if scalar else [np.float64(x) for x in k]
+    if "strike-tuple" in forms and not scalar:
+        return tuple(k)
+    if "strike-array" in forms and not scalar:
+        return np.array(k, dtype=float)
+    return k if scalar else list(k)
+
+
+def _notional_form(notional, forms):
+    if "notional-int" in forms and float(notional).is_integer():
+        return int(notional)
+    if "notional-npfloat" in forms:
+        return np.float64(notional)
+    return notional
+
+
+def make_product(kind, notional, forms=()):
     from rpylib.product.payoff import PayoffType, Vanilla
     from rpylib.product.product import Product
 
     k = STRIKES[kind]
-    strike = k if isinstance(k, float) else list(k)
+    strike = _strike_form(k, forms)
+    notional = _notional_form(notional, forms)
     if kind in BARRIER_KINDS:
         from rpylib.product.payoff import Barrier, BarrierType
 
@@ -296,7 +377,7 @@ def control_prices(cv_kind, dim, notional, df, payoff="s"):
     return [[cn[j] * df * _bal_mean(f) for f in fs] for j, (_, fs, _) in enumerate(spec)]
 
 
-def make_controls(cv_kind, dim, notional, df, payoff="s"):
+def make_controls(cv_kind, dim, notional, df, payoff="s", forms=()):
     """The real ControlVariates object (None for 'none')."""
     from rpylib.product.payoff import Forward, PayoffOnTheFly, PayoffType, Vanilla
     from rpylib.product.product import ControlVariates, Product
@@ -320,19 +401,58 @@ def make_controls(cv_kind, dim, notional, df, payoff="s"):
             pay = Vanilla(strike=LCALL_K, payoff_type=PayoffType.CALL)
         else:
             pay = PayoffOnTheFly(_sq)
-        products.append(Product(payoff_underlying=_underlying(und), payoff=pay, maturity=MATURITY, notional=cn[j]))
+        products.append(Product(payoff_underlying=_underlying(und), payoff=pay, maturity=MATURITY, notional=_notional_form(cn[j], forms)))
         if cv_kind.endswith("r"):
-            prices.append(float(P[j][0]))  # one real number per control (a scalar control has one market price)
+            # one real number per control (a scalar control has one market price)
+            prices.append(np.float64(P[j][0]) if "prices-npfloat" in forms else float(P[j][0]))
+        elif "prices-lists" in forms:
+            prices.append([float(v) for v in P[j]])
         else:
             prices.append(np.array(P[j], dtype=float))  # one entry per payoff component
+    if "prices-tuple" in forms:
+        prices = tuple(prices)
+    if "prices-2d" in forms and not cv_kind.endswith("r"):
+        prices = np.array(prices, dtype=float)  # shape (number of controls, payoff dimension)
+    if "prices-array" in forms and cv_kind.endswith("r"):
+        prices = np.array(prices, dtype=float)  # shape (number of controls,)
+    if "products-tuple" in forms:
+        products = tuple(products)
     return ControlVariates(products=products, prices=prices)
+
+
+def snapshot_inputs(product, cv):
+    """Copies of the caller's argument arrays (strikes of the product and of the controls, given prices) as they are now."""
+    def arr(x):
+        try:
+            return np.array(x, dtype=float)
+        except (TypeError, ValueError):
+            return None
+
+    out = {"strike": arr(getattr(getattr(product, "payoff", None), "strike", None))}
+    if cv is not None and hasattr(cv, "prices"):
+        out["prices"] = [arr(p) for p in cv.prices]
+        out["control-strike"] = [arr(getattr(getattr(q, "payoff", None), "strike", None)) for q in getattr(cv, "products", ())]
+    return out
+
+
+def changed_inputs(before, after):
+    """names of the argument arrays whose values differ between two snapshots"""
+    def same(a, b):
+        if isinstance(a, list):
+            return isinstance(b, list) and len(a) == len(b) and all(same(x, y) for x, y in zip(a, b))
+        if a is None or b is None:
+            return a is b
+        return a.shape == b.shape and bool(np.array_equal(a, b, equal_nan=True))
+
+    return [k for k in before if not same(before[k], after.get(k))]
 
 
 def make_objects(case):
     """(product, control variates) of a case: built once, possibly priced several times (sub 'mixed')."""
     dim = payoff_dim(case["payoff"])
-    product = make_product(case["payoff"], case["notional"])
-    cv = make_controls(case["cv"], dim, case["notional"], case["df"], case["payoff"])
+    forms = tuple(case.get("forms", ()))
+    product = make_product(case["payoff"], case["notional"], forms)
+    cv = make_controls(case["cv"], dim, case["notional"], case["df"], case["payoff"], forms)
     return product, cv
 
 
@@ -348,9 +468,166 @@ def build_engine(case, letters, objects=None):
         from rpylib.montecarlo.configuration import VarianceReduction, VarianceReductionMethod
 
         vr = VarianceReductionMethod().add(VarianceReduction.RICHARDSONEXTRAPOLATION)
-    conf = ConfigurationStandard(mc_paths=len(letters), seed=case.get("seed"), control_variates=cv, variance_reduction=vr,
-                                 activate_spot_statistics=bool(case["spot"]), nb_of_processes=1)
+    forms = case.get("forms", ())
+    mc_paths = np.int64(len(letters)) if "paths-npint" in forms else len(letters)
+    procs = case.get("procs", 1) or None
+    if "procs-npint" in forms and procs is not None:
+        procs = np.int64(procs)
+    conf = ConfigurationStandard(mc_paths=mc_paths, seed=case.get("seed"), control_variates=cv, variance_reduction=vr,
+                                 activate_spot_statistics=bool(case["spot"]), nb_of_processes=procs)
     return Engine(configuration=conf, process=proc), proc, product
+
+
+# ----------------------------------------------------------------------------------------------------------------------
+# simulated worker pool (the multiprocessing branch of Engine.price)
+# ----------------------------------------------------------------------------------------------------------------------
+
+SIM_CPUS = 4  # nb_of_processes=None means "one worker per cpu": the simulated machine has 4
+
+
+def nb_workers(procs):
+    """number of workers of a pool built with processes=`procs` (0 / None = one per cpu of the simulated machine)"""
+    return procs if procs else SIM_CPUS
+
+
+class _SimResult:
+    def __init__(self, value):
+        self._value = value
+
+    def get(self, timeout=None):
+        return self._value
+
+    def wait(self, timeout=None):
+        return None
+
+    def ready(self):
+        return True
+
+    def successful(self):
+        return True
+
+
+class SimPool:
+    """Drop-in for pathos.multiprocessing.Pool with the semantics of the real pool that matter to the engine (same model as
+    mc/c08_util.SimPool, which was validated against the real pool): `processes` workers (None = SIM_CPUS); the initializer
+    runs once per worker (the generator states of this process are put back afterwards); map / map_async / imap cut the items
+    into chunks of ceil(len / (4 workers)) consecutive items; EVERY CHUNK works on its own dill round-trip copy of the task
+    (closures are pickled by value), so nothing a worker does to the engine's objects reaches the parent, only the returned
+    values do (the scripted process keeps its call counter through the uid registry above); results come back in the order
+    of the items and the callback runs once, in the parent. Deterministic: chunks are worked off in order."""
+
+    log = []  # (workers, items, chunks) of every map since the last install
+
+    def __init__(self, processes=None, initializer=None, initargs=(), *a, **k):
+        import random as pyrandom
+
+        if processes is not None and processes < 1:
+            raise ValueError("Number of processes must be at least 1")
+        self.n = nb_workers(processes)
+        st, pst = np.random.get_state(), pyrandom.getstate()
+        try:
+            for _ in range(self.n):
+                if initializer is not None:
+                    initializer(*initargs)
+        finally:
+            np.random.set_state(st)
+            pyrandom.setstate(pst)
+
+    def __enter__(self):
+        return self
+
+    def __exit__(self, *a):
+        return False
+
+    def close(self):
+        pass
+
+    def join(self):
+        pass
+
+    def terminate(self):
+        pass
+
+    def _run(self, func, iterable, chunksize):
+        import dill
+
+        items = list(iterable)
+        if chunksize is None:
+            chunksize, extra = divmod(len(items), 4 * self.n)
+            if extra:
+                chunksize += 1
+        chunks = [items[i: i + chunksize] for i in range(0, len(items), chunksize)] if chunksize else []
+        blob = dill.dumps(func)
+        results = []
+        for chunk in chunks:
+            fcopy = dill.loads(blob)
+            results.extend(fcopy(x) for x in chunk)
+        SimPool.log.append((self.n, len(items), len(chunks)))
+        return results
+
+    def map_async(self, func, iterable, chunksize=None, callback=None, error_callback=None):
+        results = self._run(func, iterable, chunksize)
+        if callback is not None:
+            callback(results)
+        return _SimResult(results)
+
+    def map(self, func, iterable, chunksize=None):
+        return self._run(func, iterable, chunksize)
+
+    def imap(self, func, iterable, chunksize=1):
+        return iter(self._run(func, iterable, chunksize))
+
+    imap_unordered = imap
+
+    def starmap(self, func, iterable, chunksize=None):
+        return self._run(lambda args: func(*args), iterable, chunksize)
+
+    def apply_async(self, func, args=(), kwds=None, callback=None, error_callback=None):
+        res = self._run(lambda _: func(*args, **(kwds or {})), [0], 1)[0]
+        if callback is not None:
+            callback(res)
+        return _SimResult(res)
+
+    def apply(self, func, args=(), kwds=None):
+        return self.apply_async(func, args, kwds).get()
+
+
+class _FakeMP:
+    """stands for the module `pathos.multiprocessing` inside the standard engine's module"""
+
+    Pool = SimPool
+    ProcessPool = SimPool
+
+    def __init__(self, real):
+        self._real = real
+
+    @staticmethod
+    def cpu_count():
+        return SIM_CPUS
+
+    def __getattr__(self, name):
+        return getattr(self._real, name)
+
+
+class pool_installed:
+    """Context manager: the standard engine's module sees SimPool instead of pathos.multiprocessing. `ok` is False when the
+    module has no attribute `mp` to replace (the harness then cannot close the pool branch: a cap, never an alarm)."""
+
+    def __enter__(self):
+        import rpylib.montecarlo.standard.engine as SE
+
+        self._mod = SE
+        self._saved = getattr(SE, "mp", None)
+        self.ok = self._saved is not None
+        if self.ok:
+            SE.mp = _FakeMP(self._saved)
+        del SimPool.log[:]
+        return self
+
+    def __exit__(self, *a):
+        if self.ok:
+            self._mod.mp = self._saved
+        return False
 
 
 SIDE_N = 4  # number of paths of the side engine of the history operations 'other' and 'fork'
